@@ -1123,6 +1123,57 @@ fn replay(path: &std::path::Path) -> ! {
     std::process::exit(1)
 }
 
+fn cpu_now() -> f64 {
+    let mut ts = libc::timespec { tv_sec: 0, tv_nsec: 0 };
+    unsafe { libc::clock_gettime(libc::CLOCK_PROCESS_CPUTIME_ID, &mut ts) };
+    ts.tv_sec as f64 + ts.tv_nsec as f64 * 1e-9
+}
+
+/// debugging aid: CPU cost of the stages on one design
+fn bench() -> ! {
+    for with_kern in [false, true] {
+        let c = Case {
+            ms: MasterSet::Ends,
+            groups: vec![(2, 2), (2, 2)],
+            entries: if with_kern { vec![Entry { first: 2, second: 2, values: vec![Some(-50.0), Some(30.0)] }] } else { vec![] },
+        };
+        let d = build_design(&c);
+        let sc = vcore::Scratch::new("c09b");
+        let path = d.write_designspace(sc.path()).unwrap();
+        let (c0, t0) = (cpu_now(), std::time::Instant::now());
+        for _ in 0..50 {
+            let _ = fcx::compile(&path, &fcx::Opts::default(), None).unwrap();
+        }
+        println!("kerning={with_kern}: compile cpu {:.2} ms wall {:.2} ms", (cpu_now() - c0) * 20.0, t0.elapsed().as_secs_f64() * 20.0);
+        let (c0, t0) = (cpu_now(), std::time::Instant::now());
+        for _ in 0..50 {
+            let _ = compile_fresh(&path).unwrap();
+        }
+        println!("kerning={with_kern}: compile_fresh cpu {:.2} ms wall {:.2} ms", (cpu_now() - c0) * 20.0, t0.elapsed().as_secs_f64() * 20.0);
+        let b = fcx::compile(&path, &fcx::Opts::default(), None).unwrap();
+        let (c0, t0) = (cpu_now(), std::time::Instant::now());
+        for _ in 0..50 {
+            let vf = VFont::new(&b).unwrap();
+            let _ = vf.gid_for_name("A");
+            let _ = LFont::new(&b).unwrap();
+        }
+        println!("kerning={with_kern}: open cpu {:.2} ms wall {:.2} ms", (cpu_now() - c0) * 20.0, t0.elapsed().as_secs_f64() * 20.0);
+        let (c0, t0) = (cpu_now(), std::time::Instant::now());
+        for _ in 0..50 {
+            let sc2 = vcore::Scratch::new("c09b");
+            let _ = d.write_designspace(sc2.path()).unwrap();
+        }
+        println!("kerning={with_kern}: write cpu {:.2} ms wall {:.2} ms", (cpu_now() - c0) * 20.0, t0.elapsed().as_secs_f64() * 20.0);
+        let (c0, t0) = (cpu_now(), std::time::Instant::now());
+        for _ in 0..50 {
+            let _ = evaluate(&d);
+        }
+        println!("kerning={with_kern}: evaluate cpu {:.2} ms wall {:.2} ms", (cpu_now() - c0) * 20.0, t0.elapsed().as_secs_f64() * 20.0);
+    }
+    vcore::cleanup_scratch();
+    std::process::exit(0)
+}
+
 // ------------------------------------------------------------------------------------ main
 
 fn main() {
@@ -1136,6 +1187,9 @@ fn main() {
     }));
     if let Some(p) = &args.replay {
         replay(p);
+    }
+    if std::env::var("C09_BENCH").is_ok() {
+        bench();
     }
     let subs = spaces(args.tier);
     let only = std::env::var("C09_ONLY").ok();
